@@ -306,3 +306,34 @@ Qed.
 
 Corollary pser_lift t : wf_tx t -> pser (lift t) = ROk (serialize t).
 Proof. apply pser_lift_with. Qed.
+
+(* ---------- sizes (InputOutput.size, Transaction.size, Transaction.base_size) ---------- *)
+Definition string_size (s : bytes) : nat := (cs_width (N.of_nat (length s)) + length s)%nat.
+Definition in_size (i : txin) : nat := (length (ti_hash i) + 4 + string_size (ti_script i) + 4)%nat.
+Definition out_size (o : txout) : nat := (8 + string_size (to_script o))%nat.
+Definition base_size (t : tx) : nat :=
+  (4 + cs_width (N.of_nat (length (tx_ins t))) + cs_width (N.of_nat (length (tx_outs t))) + 4)%nat.
+Definition tx_size (t : tx) : nat :=
+  (base_size t + list_sum (map in_size (tx_ins t)) + list_sum (map out_size (tx_outs t)))%nat.
+
+Lemma ser_string_size s : length (ser_string s) = string_size s.
+Proof. unfold ser_string, string_size. rewrite app_length, cs_encode_length. reflexivity. Qed.
+Lemma ser_in_size i : length (ser_in i) = in_size i.
+Proof. unfold ser_in, in_size. rewrite !app_length, !le_encode_length, ser_string_size. lia. Qed.
+Lemma ser_out_size o : length (ser_out o) = out_size o.
+Proof. unfold ser_out, out_size. rewrite !app_length, !le_encode_length, ser_string_size. lia. Qed.
+Lemma concat_map_length {A} (ser : A -> bytes) (sz : A -> nat) :
+  (forall x, length (ser x) = sz x) -> forall l, length (concat (map ser l)) = list_sum (map sz l).
+Proof.
+  intros H l. induction l as [|x l IH]; [reflexivity|].
+  cbn [map concat list_sum]. rewrite app_length, H, IH. reflexivity.
+Qed.
+
+(* the number of bytes written is the sum of the parts, for every transaction *)
+Theorem serialize_length t : length (serialize t) = tx_size t.
+Proof.
+  unfold serialize, tx_size, base_size, ser_ins, ser_outs.
+  rewrite !app_length, !le_encode_length, !cs_encode_length.
+  rewrite (concat_map_length ser_in in_size ser_in_size).
+  rewrite (concat_map_length ser_out out_size ser_out_size). lia.
+Qed.
